@@ -182,10 +182,24 @@ func MarshalCapabilities(values []bgp.ParameterCapabilityInterface) ([]*api.Capa
 	return caps, nil
 }
 
+// familiesPresent rejects a missing address family message (ToFamily
+// dereferences it).
+func familiesPresent(fs ...*api.Family) error {
+	for _, f := range fs {
+		if f == nil {
+			return fmt.Errorf("empty family")
+		}
+	}
+	return nil
+}
+
 func unmarshalCapability(a *api.Capability) (bgp.ParameterCapabilityInterface, error) {
 	switch cap := a.GetCap().(type) {
 	case *api.Capability_MultiProtocol:
 		a := cap.MultiProtocol
+		if err := familiesPresent(a.Family); err != nil {
+			return nil, err
+		}
 		return bgp.NewCapMultiProtocol(ToFamily(a.Family)), nil
 	case *api.Capability_RouteRefresh:
 		return bgp.NewCapRouteRefresh(), nil
@@ -195,6 +209,9 @@ func unmarshalCapability(a *api.Capability) (bgp.ParameterCapabilityInterface, e
 		a := cap.ExtendedNexthop
 		tuples := make([]*bgp.CapExtendedNexthopTuple, 0, len(a.Tuples))
 		for _, t := range a.Tuples {
+			if err := familiesPresent(t.NlriFamily, t.NexthopFamily); err != nil {
+				return nil, err
+			}
 			var nhAfi uint16
 			switch t.NexthopFamily.Afi {
 			case api.Family_AFI_IP:
@@ -211,6 +228,9 @@ func unmarshalCapability(a *api.Capability) (bgp.ParameterCapabilityInterface, e
 		a := cap.GracefulRestart
 		tuples := make([]*bgp.CapGracefulRestartTuple, 0, len(a.Tuples))
 		for _, t := range a.Tuples {
+			if err := familiesPresent(t.Family); err != nil {
+				return nil, err
+			}
 			var forward bool
 			if t.Flags&0x80 > 0 {
 				forward = true
@@ -233,6 +253,9 @@ func unmarshalCapability(a *api.Capability) (bgp.ParameterCapabilityInterface, e
 		a := cap.AddPath
 		tuples := make([]*bgp.CapAddPathTuple, 0, len(a.Tuples))
 		for _, t := range a.Tuples {
+			if err := familiesPresent(t.Family); err != nil {
+				return nil, err
+			}
 			tuples = append(tuples, bgp.NewCapAddPathTuple(ToFamily(t.Family), bgp.BGPAddPathMode(t.Mode)))
 		}
 		return bgp.NewCapAddPath(tuples), nil
@@ -242,6 +265,9 @@ func unmarshalCapability(a *api.Capability) (bgp.ParameterCapabilityInterface, e
 		a := cap.LongLivedGracefulRestart
 		tuples := make([]*bgp.CapLongLivedGracefulRestartTuple, 0, len(a.Tuples))
 		for _, t := range a.Tuples {
+			if err := familiesPresent(t.Family); err != nil {
+				return nil, err
+			}
 			var forward bool
 			if t.Flags&0x80 > 0 {
 				forward = true
